@@ -113,6 +113,17 @@ CHECKS = {
             'Token equality on public fields; a LatexWalkerTokenParseError legitimately ends a '
             'strict reading.',
             'DESIGN.md 5 C11'),
+    'C12': ('exploration',
+            'Hypothesis grammar documents with unique marker words per content class; '
+            'presence/absence oracle over latex2text output across option sets',
+            'Thousands of documents (quick) / 40k (thorough) with comment, formula, discarded and '
+            'ordinary-text markers at every nesting position, converted under pairwise-covering '
+            '(quick) or all 80 (thorough) combinations of math_mode x keep_comments x whitespace '
+            'policy x fill_text; leaks are checked everywhere, required appearances at positions '
+            'visible by construction.',
+            'Custom discard=True text specs on top of matching walker specs; visibility rules '
+            'listed in the evidence assumptions.',
+            'DESIGN.md 5 C12'),
     'C13': ('exploration',
             'bounded-exhaustive active-character strings, every built-in character in six '
             'neighbour templates, Hypothesis mixtures; oracle = strict parse of the encoder output '
